@@ -84,6 +84,17 @@ func (w *VWorld) open() {
 	w.Pool = model.Pool(model.PadFor(p))
 }
 
+// VAdopt makes the world stand on components somebody else built (a whole hub instance wired by app.go).
+func (w *VWorld) VAdopt(store *Store, dsm *DsManager, bus EventBus) {
+	w.Store, w.Dsm, w.Bus = store, dsm, bus
+	p, err := w.Store.NamespaceManager.AssertPrefixMappingForExpansion(VNamespace)
+	if err != nil {
+		panic(err)
+	}
+	w.Prefix = p
+	w.Pool = model.Pool(model.PadFor(p))
+}
+
 func (w *VWorld) Close() {
 	_ = w.Store.Close()
 }
